@@ -288,6 +288,18 @@ func c11(c *core.Ctx) {
 		targetedBuffersNotShared(c, int(c.N(40, 2000)))
 		c.DistinctStr(fmt.Sprintf("buffers-not-shared-%d", i))
 	})
+	c.Section("overlapping-retransmissions", 4, func(i int64, _ *gen.Rand) {
+		targetedOverlappingRetransmissions(c, int(i))
+		c.DistinctStr(fmt.Sprintf("overlapping-retransmissions-%d", i))
+	})
+	c.Section("stops-and-budget", 6, func(i int64, _ *gen.Rand) {
+		targetedStopsAndBudget(c, int(i))
+		c.DistinctStr(fmt.Sprintf("stops-and-budget-%d", i))
+	})
+	c.Section("ticker-follows-clock", 3, func(i int64, _ *gen.Rand) {
+		targetedTickerFollowsClock(c, int(i))
+		c.DistinctStr(fmt.Sprintf("ticker-follows-clock-%d", i))
+	})
 	c.Section("clock-moves-inside-tick", 3, func(i int64, _ *gen.Rand) {
 		targetedClockMovesInsideTick(c, int(i))
 		c.DistinctStr(fmt.Sprintf("clock-moves-inside-tick-%d", i))
